@@ -292,6 +292,10 @@ def cmp(op, l, r):
         op, l, r = "<", r, l
     elif op == ">=":
         op, l, r = "<=", r, l
+    if op in ("in", "notin") and l.op == "const" and isinstance(l.a[0], (int, float)) and not isinstance(l.a[0], bool) and r.op in ("tuple", "list", "set") and 1 <= len(r.a) <= 8 and not any(z.op == "const" for z in r.a):
+        # 0 in (a, b, c)  is  a == 0 or b == 0 or c == 0
+        t = boolop("or", [cmp("==", z, l) for z in r.a])
+        return t if op == "in" else unop("not", t)
     if op in ("is", "isnot") and (is_const(l, None) or is_const(r, None)):
         other = r if is_const(l, None) else l
         if other.op == "ite":
@@ -302,6 +306,13 @@ def cmp(op, l, r):
                 if cn is True or cn is False:
                     return const(cn if op == "is" else (not cn))
                 return cn if op == "is" else unop("not", cn)
+    if op in ("==", "!="):
+        # a[:, np.newaxis] == b[np.newaxis, :] is np.equal.outer(a, b)
+        ca, cb = _column_of(l), _row_of(r)
+        if ca is None or cb is None:
+            ca, cb = _column_of(r), _row_of(l)
+        if ca is not None and cb is not None:
+            return call(ext("np.equal.outer" if op == "==" else "np.not_equal.outer"), (ca, cb))
     if op in ("==", "!=", "is", "isnot") and r.id < l.id:
         l, r = r, l
     return mk("cmp", op, l, r)
@@ -408,6 +419,11 @@ def sub(base, idx):
         idx = mk("slice", *a_)
         if all(x.op == "const" and x.a[0] is None for x in a_):
             return base  # x[slice(None)]: everything
+    # np.<op>.outer(a, b).shape[k] is the length of a (k = 0) / of b (k = 1)
+    if base.op == "attr" and base.a[1] == "shape" and idx.op == "const" and idx.a[0] in (0, 1) and not isinstance(idx.a[0], bool):
+        o = base.a[0]
+        if o.op == "call" and (callee_name(o.a[0]) or "").endswith(".outer") and len(o.a[1]) == 2:
+            return call(mk("builtin", "len"), (o.a[1][int(idx.a[0])],))
     # {True: a, False: b}[bool(c)] is a if c else b
     if base.op == "dict" and len(base.a) == 2 and idx.op == "call" and callee_name(idx.a[0]) == "builtins.bool" and len(idx.a[1]) == 1:
         ks = {}
